@@ -192,6 +192,39 @@ theorem carveE_of_sem_lhs {c : Ctx} {asg : List String} {lhs : CExpr} (hl : lhsO
   | imm l s => unfold CarveE; rw [CarveN]; rfl
   | _ => simp [lhsOK] at hl
 
+/-- for a plain `=` the compiled target enters `assignment_expr` through its type only -/
+theorem assignMid_eq_ty (cfg : Cfg) {cd cd' : CE} (h : cd.ty = cd'.ty) (ce : CE) :
+    assignMid cfg cd "=" ce = assignMid cfg cd' "=" ce := by
+  unfold assignMid
+  simp (config := { decide := true }) only [↓reduceIte, h]
+
+theorem assignBack_eq (cfg : Cfg) (cd cd' : CE) (src : CE) : assignBack cfg cd "=" src = assignBack cfg cd' "=" src := by
+  unfold assignBack
+  have : (("=" : String) == "=") = true := by decide
+  simp only [this, Bool.or_true, ↓reduceIte]
+
+/-- an assignment target in `lhsCarveSem`: the two lowerings compile it to the same result, or — target of a plain `=`,
+    a register whose read the code redirects to the `.new` value — to results of the same type -/
+theorem lhs_compile_rel {c : Ctx} {asg : List String} {op : String} {lhs : CExpr} (hl : lhsOK c lhs = true)
+    (h : lhsCarveSem asg op lhs = true) :
+    compileExpr ⟨asg, Cfg.asCode⟩ lhs = compileExpr ⟨asg, Cfg.fixed⟩ lhs ∨
+    (op = "=" ∧ ∃ cdA cdF, compileExpr ⟨asg, Cfg.asCode⟩ lhs = .ok cdA ∧ compileExpr ⟨asg, Cfg.fixed⟩ lhs = .ok cdF ∧
+      cdA.ty = cdF.ty) := by
+  unfold lhsCarveSem at h
+  simp only [Bool.or_eq_true, Bool.and_eq_true, beq_iff_eq] at h
+  rcases h with h | ⟨hop, h⟩
+  · exact Or.inl (expr_asCode_eq_fixed ⟨asg, Cfg.fixed⟩ lhs (carveE_of_sem_lhs hl h))
+  · refine Or.inr ⟨hop, ?_⟩
+    cases lhs with
+    | reg n k t =>
+      simp only at h
+      refine ⟨_, _, compileExpr_reg _ n k t, compileExpr_reg _ n k t, ?_⟩
+      -- `regSafe [] n k t`: the class-only type of an explicit register is the declared one
+      have hpn := pn_reg [] n k t (by rw [CarveN]; exact h)
+      simp only [compileExpr_reg, Except.map, normTy_of_not (e := .reg n k t) rfl, Except.ok.injEq, CE.mk.injEq] at hpn
+      exact hpn.2.1.symm
+    | _ => simp at h
+
 /-! ## statements, on a typed state -/
 
 /-- the result relation of statement lowering in the state `σ`: same `TSt`, effects alike from `σ` -/
@@ -204,20 +237,42 @@ include hms hinv
 
 omit hms hinv in
 theorem compileAssign_sem (lhs : CExpr) (op : String) {a f : CE} (hop : op ∈ assignOps) (hl : lhsOK c lhs = true)
-    (hlc : CarveESem env.assigned lhs = true) (r : CERel ms σ a f) (hs : SortOK ms σ f)
+    (hlc : lhsCarveSem env.assigned op lhs = true) (r : CERel ms σ a f) (hs : SortOK ms σ f)
     (hcv : ∀ cd, compileExpr (fixedEnv env) lhs = .ok cd → assignCarveSem op cd f = true) :
     ResRel (fun x y => CERel ms σ x.2 y.2 ∧ ∀ subs, EEqAt ms subs σ x.1 y.1)
       (compileAssign (codeEnv env) lhs op a) (compileAssign (fixedEnv env) lhs op f) := by
   rw [compileAssign_eq, compileAssign_eq]
-  have hE : compileExpr (codeEnv env) lhs = compileExpr (fixedEnv env) lhs :=
-    expr_asCode_eq_fixed env lhs (carveE_of_sem_lhs hl hlc)
-  rw [hE]
+  -- the compiled target: the same under both lowerings, or (plain `=`) of the same type, which is all `=` uses of it
+  have hmid : ∀ cdF, compileExpr (fixedEnv env) lhs = .ok cdF → ∃ cdA, compileExpr (codeEnv env) lhs = .ok cdA ∧
+      assignMid Cfg.asCode cdA op a = assignMid Cfg.asCode cdF op a ∧
+      ∀ src, assignBack Cfg.asCode cdA op src = assignBack Cfg.asCode cdF op src := by
+    intro cdF hF
+    rcases lhs_compile_rel hl hlc with hE | ⟨hop', cdA, cdF', hA, hF', hty⟩
+    · exact ⟨cdF, hE.trans hF, rfl, fun _ => rfl⟩
+    · have : cdF' = cdF := by
+        have h1 : compileExpr (fixedEnv env) lhs = .ok cdF' := hF'
+        rw [hF] at h1; exact (Except.ok.inj h1).symm
+      subst this
+      subst hop'
+      exact ⟨cdA, hA, assignMid_eq_ty _ hty a, fun src => assignBack_eq _ _ _ src⟩
+  have herr : ∀ m, compileExpr (fixedEnv env) lhs = .error m → ∃ m', compileExpr (codeEnv env) lhs = .error m' := by
+    intro m hF
+    rcases lhs_compile_rel hl hlc with hE | ⟨_, cdA, cdF', hA, hF', _⟩
+    · exact ⟨m, hE.trans hF⟩
+    · have h1 : compileExpr (fixedEnv env) lhs = .ok cdF' := hF'
+      rw [hF] at h1; cases h1
   cases hcd : compileExpr (fixedEnv env) lhs with
-  | error m => trivial
+  | error m =>
+    obtain ⟨m', hA⟩ := herr m hcd
+    rw [hA]; trivial
   | ok cd =>
+    obtain ⟨cdA, hA, hmidA, hbackA⟩ := hmid cd hcd
+    rw [hA]
     have hfull := assignFull_sem cd op hop r hs (hcv cd hcd)
     unfold assignFull at hfull
-    show ResRel _ (assignMid Cfg.asCode cd op a >>= _) (assignMid Cfg.fixed cd op f >>= _)
+    show ResRel _ (assignMid Cfg.asCode cdA op a >>= _) (assignMid Cfg.fixed cd op f >>= _)
+    rw [hmidA]
+    conv => enter [2]; simp only [hbackA]
     cases hA : assignMid Cfg.asCode cd op a with
     | error m =>
       cases hF : assignMid Cfg.fixed cd op f with
